@@ -9,7 +9,52 @@ import cex
 
 VERIF = os.path.dirname(os.path.dirname(os.path.abspath(__file__)))
 KANI_DIR = os.path.join(VERIF, "kani")
-ENV = dict(os.environ, CARGO_NET_OFFLINE="true", RUST_BACKTRACE="0")
+ENV = dict(os.environ, CARGO_NET_OFFLINE="true", RUST_BACKTRACE="0", CARGO_TARGET_DIR=os.path.join(KANI_DIR, "target"))
+
+
+# Markers that concern only some of the properties a harness serves (longest prefix wins; default: all of the harness's).
+MARKER_PROPS = {
+    "VF:index.heap.": ["C19", "C18"],
+    "VF:index.heap.cost_differs_from_documented_rule": ["C19"],
+    "VF:index.heap.list_cost_differs_from_documented_rule": ["C19"],
+    "VF:index.clear": ["C05", "C08"],
+    "VF:index.push_after_clear": ["C05", "C08"],
+    "VF:index.reserve_changed_contents": ["C05", "C10"],
+    "VF:index.with_capacity_not_empty": ["C05", "C10"],
+    "VF:slice.forms.": ["C20"],
+    "VF:columns.get.returned_out_of_bounds": ["C13"],
+    "VF:collapse.": ["C11"],
+    "VF:collapse.after_clear": ["C11", "C08"],
+    "VF:collapse.clone": ["C11", "C09"],
+    "VF:huffman.": ["C06"],
+    "VF:huffman.read_differs_from_pushed": ["C06", "C01", "C02"],
+    "VF:huffman.raw_roundtrip": ["C06", "C01"],
+    "VF:huffman.after_clear_not_raw": ["C06", "C08"],
+    "VF:huffman.forms.": ["C20"],
+    "VF:dictionary.": ["C07"],
+    "VF:dictionary.read_differs_from_pushed": ["C07", "C01", "C04"],
+    "VF:dictionary.earlier_read_changed": ["C07", "C02"],
+    "VF:dictionary.cleared_region_refused": ["C07", "C08"],
+    "VF:option.forms.": ["C20"],
+    "VF:result.forms.": ["C20"],
+    "VF:tuple.forms.": ["C20"],
+    "VF:option.into_owned": ["C14", "C01"],
+    "VF:result.into_owned": ["C14", "C01"],
+    "VF:tuple.into_owned": ["C14", "C01"],
+    "VF:intoowned.": ["C14"],
+    "VF:intoowned.slice.region_to_region": ["C14", "C20"],
+    "VF:intoowned.columns.region_to_region": ["C14", "C20"],
+    "VF:intoowned.nested.region_to_region": ["C14", "C20"],
+    "VF:flatstack.": ["C03"],
+    "VF:flatstack.get.returned_out_of_bounds": ["C03", "C13"],
+}
+
+
+def marker_filters(pid):
+    """(ignore, only) prefix lists for the native search when checking property `pid`."""
+    ignore = [m for m, ps in MARKER_PROPS.items() if pid not in ps]
+    only = [m for m, ps in MARKER_PROPS.items() if pid in ps]
+    return ignore, only
 
 
 def registry():
@@ -25,7 +70,7 @@ def registry():
     return out, ""
 
 
-def native_search(h, seed, timeout=900, known=()):
+def native_search(h, seed, timeout=900, known=(), pid=None):
     """Bounded-exhaustive enumeration of the harness's argument domains in both build profiles."""
     res = dict(harness=h["name"], engine="native bounded-exhaustive enumeration", bound=h["bound"], searched=0, profiles=[], found=None, samples=[], wall_s=0.0)
     t0 = time.time()
@@ -35,7 +80,7 @@ def native_search(h, seed, timeout=900, known=()):
             res["error"] = "build failed: " + log[-600:]
             return res
         try:
-            p = subprocess.run([path, "search", h["name"], str(seed)], capture_output=True, text=True, timeout=timeout, env=dict(ENV, VK_KNOWN="|".join(known)))
+            p = subprocess.run([path, "search", h["name"], str(seed)], capture_output=True, text=True, timeout=timeout, env=dict(ENV, VK_KNOWN="|".join(known), VK_IGNORE="|".join(marker_filters(pid)[0]) if pid else "", VK_ONLY="|".join(marker_filters(pid)[1]) if pid else ""))
         except subprocess.TimeoutExpired:
             res["error"] = f"{profile}: search timeout"
             return res
@@ -139,7 +184,7 @@ def run(pid, cfg, tier, seed, repo):
     evaluations = distinct = 0
     # native bounded-exhaustive enumeration: every harness, both profiles
     for h in mine:
-        r = native_search(h, seed, known=[k[len(f"bounded.{h['name']}#"):] for k in cfg.get("_known_keys", []) if k.startswith(f"bounded.{h['name']}#")])
+        r = native_search(h, seed, pid=pid, known=[k[len(f"bounded.{h['name']}#"):] for k in cfg.get("_known_keys", []) if k.startswith(f"bounded.{h['name']}#")])
         report["harnesses"].append(r)
         evaluations += r["searched"]
         distinct += r["searched"]
